@@ -62,12 +62,13 @@ struct Probe {
 	std::string log;			// JSON array body of logger records
 	int evCount = 0;
 	int draws = 0;
+	std::string plog;			// JSON array body: what the plan API answered (["a",ok] per append, ["w",[tasks]] per sweep)
 	std::vector<int> badThis;	// event indices whose `this` was not access<State>()
 	std::vector<int> badOrigin;	// event indices whose control.stateId() was not the state's id
 	int occ[fx::N][40];			// occurrences of (state, method) in this call
 	void* instance = nullptr;	// FSM::Instance*
 	bool quiet = false;			// no event logging (used to count the library's own allocations)
-	void resetCall() { ev.clear(); log.clear(); evCount = 0; draws = 0; badThis.clear(); badOrigin.clear(); memset(occ, 0, sizeof occ); }
+	void resetCall() { ev.clear(); log.clear(); plog.clear(); evCount = 0; draws = 0; badThis.clear(); badOrigin.clear(); memset(occ, 0, sizeof occ); }
 };
 inline Rational ScriptedRng::next() noexcept {
 	Probe& p = *currentProbe();
@@ -145,13 +146,34 @@ template <typename P> static bool planAppend(P pl, int o1, int d1, int k, int p)
 #endif
 		default: return pl.schedule(o, d); }
 }
-template <typename P> static void planRemove(P pl, int i) {
-	int n = 1; for (auto it = pl.begin(); it; ++it, ++n) if (n == i) { it.remove(); return; }
+template <typename P> static bool planRemove(P pl, int i) {
+	int n = 1; for (auto it = pl.begin(); it; ++it, ++n) if (n == i) { it.remove(); return true; }
+	return false;
+}
+template <typename P> static int planLength(P pl) { int n = 0; for (auto it = pl.begin(); it; ++it) ++n; return n; }
+template <typename T> static void jtask(std::string& o, const T& t) {
+	o += '['; jint(o, t.origin + 1); o += ','; jint(o, t.destination + 1); o += ",\""; o += kindName(t.type); o += "\","; jint(o, PayTok<PayPolicy>::of(t)); o += ']';
+}
+static void plogItem(Probe& p, const char* what, int v) { if (p.quiet) return; if (!p.plog.empty()) p.plog += ','; p.plog += "[\""; p.plog += what; p.plog += "\","; jint(p.plog, v); p.plog += ']'; }
+static void plogAppend(Probe& p, bool ok) { plogItem(p, "a", ok ? 1 : 0); }
+template <typename P> static void planClear(Probe& p, P pl) { plogItem(p, "c", planLength(pl)); pl.clear(); }
+// visit every task of the plan once, removing (through the iterator) those whose position is in `mask`
+template <typename P> static void planSweep(Probe& p, P pl, int mask) {
+	const bool log = !p.quiet;		// (quiet mode measures the library's own allocations)
+	if (log) { if (!p.plog.empty()) p.plog += ','; p.plog += "[\"w\",["; }
+	int n = 0;
+	for (auto it = pl.begin(); it; ++it, ++n) {
+		if (log) { if (n) p.plog += ','; jtask(p.plog, *it); }
+		if (n < 30 && (mask >> n & 1)) it.remove();
+	}
+	if (log) p.plog += "]]";
 }
 template <typename C> static void planOps(C& c, const Op& op) {
-	if (op.t == "plan_append")      planAppend(c.plan((hfsm2::RegionID) (op.a[0] - 1)), op.a[1], op.a[2], kindFromName(op.k), op.a[3]);
-	else if (op.t == "plan_clear")  c.plan((hfsm2::RegionID) (op.a[0] - 1)).clear();
-	else if (op.t == "plan_remove") planRemove(c.plan((hfsm2::RegionID) (op.a[0] - 1)), op.a[1]);
+	Probe& p = *c._()->probe;
+	if (op.t == "plan_append")      plogAppend(p, planAppend(c.plan((hfsm2::RegionID) (op.a[0] - 1)), op.a[1], op.a[2], kindFromName(op.k), op.a[3]));
+	else if (op.t == "plan_clear")  planClear(p, c.plan((hfsm2::RegionID) (op.a[0] - 1)));
+	else if (op.t == "plan_remove") plogItem(p, "r", planRemove(c.plan((hfsm2::RegionID) (op.a[0] - 1)), op.a[1]) ? 1 : 0);
+	else if (op.t == "plan_sweep")  planSweep(p, c.plan((hfsm2::RegionID) (op.a[0] - 1)), op.a[1]);
 }
 #else
 template <typename C> static void planOps(C&, const Op&) {}
